@@ -177,6 +177,17 @@ CHECKS = {
             "Expressions clang diagnoses (overflow, bad shifts, division by zero) are excluded; float macros are not value-checked; "
             "depth-2 expressions of the design are not generated.",
             "6/C05"),
+    "C09": ("exploration",
+            "exhaustive enumeration of dependency graphs (every 3-node chain over 6 node kinds x edge kinds, diamonds, pointer "
+            "cycles) x every non-empty root subset x regex forms x allowlist kinds x recursive/non-recursive x blocklists, each run "
+            "on the real generator and compared with the generator's own dependency relation, the un-allowlisted bindings, and rustc",
+            "For every graph and root subset the emitted item set must equal the closure of the roots in the generator's mentions "
+            "relation (nothing missing, nothing unrelated), every emitted item must be token-identical to the same item of the full "
+            "bindings, the output must compile on its own, patterns are whole-name anchored (prefix traps, alternations), and an item "
+            "matched by both lists is absent; unnamed enums are addressed through their variants, also inside namespaces.",
+            "Pointer mentions count as dependencies (bindgen defines pointee types it has seen); blocklisted-root and non-recursive "
+            "outputs are not compiled; allowlist-file is exercised only through C13/C17.",
+            "6/C09"),
 }
 
 PENDING = set()  # built but unchanged-tree findings not yet triaged: not claimed until the quick tier is clean
